@@ -46,6 +46,9 @@ assumptions(PROP, [
     "occurs in both operands; for contained / equal names keys may be missing on either side (NaN rows); in the contained-with-missing-keys "
     "class only the clauses the statement spells out are asserted (identical index, row values, no duplicate rows, every matching key combination present), "
     "not the exact row set (pandas drops the unmatched keys of the operand with fewer levels - observed, not judged)",
+    "level names are strings or None: INTEGER level names are not generated - pandas resolves them against level numbers and its index "
+    "join already returns wrong rows for a level named 0 (Broadcaster gives wrong values for names [zz] x [0], IndexError for a level "
+    "named 1 on the unchanged code; reported to the coordinator, not asserted); falsy STRING names ('') are generated",
     "DataFrame column labels never coincide with index level names (no pyLife signal does that; pandas itself calls it ambiguous)",
     "a Series whose index is one unnamed level is a *record* (one signal with keys as in the class docstring): with a pandas parameter it is "
     "spread over the parameter's rows; with scalar/array parameters every Series is a record",
@@ -63,6 +66,7 @@ NAME_POOLS = [
     ["level_0", "level_1", "level_2", "index"],
     ["level_0", "a", "level_1", "index"],
     ["None", "Unnamed: 0", "level_0", "0"],
+    ["", "a", "level_0", "b"],        # a falsy name (the empty string) is a name, not "unnamed"
 ]
 POOLS = {
     "int": [0, 1, 2, 3, 10, -1],
@@ -470,9 +474,9 @@ def layouts(draw, tier, matched_only=False, rels=None, max_private=2):
         return rows
 
     ragged_free = free or rel == "disjoint" or (rel == "equal" and not matched_only)
-    op_o = {"names": [lv if isinstance(lv, str) else None for lv in lev_o], "kinds": [kind_of[lv] for lv in lev_o],
+    op_o = {"names": [None if isinstance(lv, tuple) else lv for lv in lev_o], "kinds": [kind_of[lv] for lv in lev_o],
             "rows": rows_of(lev_o, keys_o, ragged_free)}
-    op_p = {"names": [lv if isinstance(lv, str) else None for lv in lev_p], "kinds": [kind_of[lv] for lv in lev_p],
+    op_p = {"names": [None if isinstance(lv, tuple) else lv for lv in lev_p], "kinds": [kind_of[lv] for lv in lev_p],
             "rows": rows_of(lev_p, keys_p, ragged_free)}
     return op_o, op_p, rel
 
@@ -522,7 +526,7 @@ def _label_layout(case, ctx):
     ctx.label("rel:" + rel, "kinds:%s x %s" % (op_o["kind"], op_p["kind"]))
     if None in op_o["names"] or None in op_p["names"]:
         ctx.label("unnamed_level")
-    if rel != "disjoint" and op_o["names"] != op_p["names"] and sorted(map(str, op_o["names"])) == sorted(map(str, op_p["names"])):
+    if rel != "disjoint" and op_o["names"] != op_p["names"] and sorted(map(repr, op_o["names"])) == sorted(map(repr, op_p["names"])):
         ctx.label("same_names_other_order")
     if len(op_o["rows"]) == len(op_p["rows"]):
         ctx.label("equal_length")
@@ -539,6 +543,8 @@ def _label_layout(case, ctx):
     if rel == "equal" and op_o["names"] != op_p["names"] and op_o["rows"] == op_p["rows"]:
         ctx.label("swapped_levels_same_tuples")
     placeholder = [n for n in op_o["names"] + op_p["names"] if n is not None and n not in NAMES]
+    if any(n is not None and not n for n in op_o["names"] + op_p["names"]):
+        ctx.label("falsy_level_name")
     if placeholder:
         ctx.label("placeholder_names")
         if None in op_o["names"] + op_p["names"]:
@@ -590,14 +596,14 @@ def _enum_layouts(maxlev, pool):
 
 
 def _enum_cases(tier):
-    """ALL pairs of level-name layouts with up to 2 (thorough: 3) levels over {a, level_0, level_1, None} (two of the three
-    names look like placeholders for unnamed levels - names are arbitrary strings); every level has two keys
+    """ALL pairs of level-name layouts with up to 2 (thorough: 3) levels over {'', level_0, level_1, None} (the empty
+    string is a falsy NAME, the other two look like placeholders for unnamed levels - names are arbitrary strings); every level has two keys
     (base of the level name + {0, 1}: different keys, same positional codes), listed forwards or backwards per operand
     and level; full product rows; Series x Series and DataFrame x DataFrame (thorough: all four).  Thorough adds a third
     key list per parameter level that is disjoint from the object's (only where the quantifier admits missing keys)."""
     quick = tier == "quick"
-    lays = _enum_layouts(2 if quick else 3, ["a", "level_0", "level_1", None])
-    base = {"a": 0, "level_0": 10, "level_1": 20, None: 30}
+    lays = _enum_layouts(2 if quick else 3, ["", "level_0", "level_1", None])
+    base = {"": 0, "level_0": 10, "level_1": 20, None: 30}
     kinds = [("series", "series"), ("frame", "frame")] if quick else \
         [("series", "series"), ("frame", "frame"), ("series", "frame"), ("frame", "series")]
     variants = ["fwd", "rev"]
@@ -633,7 +639,7 @@ def _enum_cases(tier):
 
 
 @subcheck(PROP, "align_exhaustive", enumerate_=_enum_cases,
-          doc="bounded exhaustive: every pair of level-name layouts with <= 2 (thorough 3) levels over {a,level_0,level_1,None}, two keys per level "
+          doc="bounded exhaustive: every pair of level-name layouts with <= 2 (thorough 3) levels over {'',level_0,level_1,None}, two keys per level "
               "listed forwards/backwards (positional codes of different level names coincide by construction)")
 def align_exhaustive(case, ctx):
     run_alignment(case, ctx)
@@ -651,7 +657,10 @@ def _scalar_array_cases(draw, tier):
         draw(_operand_payload(op_o, 1, kind="series"))
         _, op_p, _ = draw(layouts(tier, rels=["disjoint"]))
         draw(_operand_payload(op_p, 1000))
-        return {"obj": op_o, "prm": op_p}
+        case = {"obj": op_o, "prm": op_p}
+        if draw(st.booleans()):
+            case["update"] = {"row": draw(st.integers(0, n - 1)), "col": 0, "value": 777 if op_o["dtype"] == "int" else 777.5}
+        return case
     as_record = draw(st.booleans())
     if as_record:
         n = draw(st.integers(1, 4))
@@ -672,7 +681,12 @@ def _scalar_array_cases(draw, tier):
         else:
             m = draw(st.integers(0, 4))
         prm = {"kind": "array", "values": [100.0 + 3 * i for i in range(m)], "as": draw(st.sampled_from(["list", "ndarray", "tuple"]))}
-    return {"obj": op_o, "prm": prm}
+    case = {"obj": op_o, "prm": prm}
+    if draw(st.booleans()):
+        # the same Broadcaster instance is used again after the signal was updated in place
+        case["update"] = {"row": draw(st.integers(0, len(op_o["rows"]) - 1)), "col": draw(st.integers(0, len(op_o["values"][0]) - 1)),
+                          "value": 777 if op_o["dtype"] == "int" else 777.5}
+    return case
 
 
 @subcheck(PROP, "scalar_array", strategy=_scalar_array_cases, quick=1200, thorough=40000,
@@ -680,8 +694,33 @@ def _scalar_array_cases(draw, tier):
               "(the first four rows of the class docstring table)")
 def scalar_array(case, ctx):
     from pylife.core.broadcaster import Broadcaster
+    import copy
     op_o, p = case["obj"], case["prm"]
     obj = build(op_o)
+    held = Broadcaster(obj)
+    _scalar_array_round(held, obj, op_o, p, ctx)
+    upd = case.get("update")
+    if upd:
+        # in-place update of the signal the instance holds (accessor instances are cached by pandas and live as long as the
+        # object), then the same instance broadcasts again: the result must show the CURRENT values
+        ctx.label("held_instance_after_update")
+        op2 = copy.deepcopy(op_o)
+        op2["values"][upd["row"]][upd["col"]] = upd["value"]
+        if op_o["kind"] == "series":
+            obj.iloc[upd["row"]] = upd["value"]
+        else:
+            obj.iloc[upd["row"], upd["col"]] = upd["value"]
+        p2 = copy.deepcopy(p)
+        if p2["kind"] == "array":
+            p2["values"] = [v + 1000.0 for v in p2["values"]]
+        try:
+            _scalar_array_round(held, obj, op2, p2, ctx)
+        except Violation as v:
+            raise Violation("second broadcast on the same Broadcaster instance after an in-place update of the signal: " + v.msg,
+                            bucket="held:" + v.bucket)
+
+
+def _scalar_array_round(held, obj, op_o, p, ctx):
     so = snapshot(obj)
     om = model(op_o, "o")
     ctx.label("obj:%s" % op_o["kind"], "prm:%s" % p["kind"])
@@ -701,7 +740,7 @@ def scalar_array(case, ctx):
         prm = build(p)
         sp = snapshot(prm)
         ctx.nontrivial()
-        res_prm, res_obj = Broadcaster(obj).broadcast(prm)
+        res_prm, res_obj = held.broadcast(prm)
         assert_unchanged(so, obj, "object")
         assert_unchanged(sp, prm, "parameter")
         if snapshot(res_prm) != sp:
@@ -717,7 +756,7 @@ def scalar_array(case, ctx):
         arg = {"python": val, "numpy": np.float64(val), "0d": np.array(float(val))}[p["as"]]
         if op_o["kind"] == "frame":
             ctx.nontrivial()
-        res_prm, res_obj = Broadcaster(obj).broadcast(arg)
+        res_prm, res_obj = held.broadcast(arg)
         assert_unchanged(so, obj, "object")
         if snapshot(res_obj) != so:
             raise Violation("object changed by broadcasting a scalar", bucket="scalar:object")
@@ -739,7 +778,7 @@ def scalar_array(case, ctx):
         nrows = len(op_o["rows"])
         ctx.label("array_len:%s" % ("match" if n == nrows else "one" if n == 1 else "mismatch"))
         try:
-            res_prm, res_obj = Broadcaster(obj).broadcast(arg)
+            res_prm, res_obj = held.broadcast(arg)
         except ValueError as e:
             assert_unchanged(so, obj, "object")
             if n in (nrows, 1) or "Dimension mismatch" not in str(e):
@@ -760,7 +799,7 @@ def scalar_array(case, ctx):
     ctx.label("record_keys:%s" % op_o["kinds"][0])
     if f05b_class(op_o, "array") and ctx.known("F05b"):
         return
-    res_prm, res_obj = Broadcaster(obj).broadcast(arg)
+    res_prm, res_obj = held.broadcast(arg)
     assert_unchanged(so, obj, "object")
     if not isinstance(res_prm, pd.Series) or [v[0] for v in _values_of(res_prm)] != vals:
         raise Violation("array parameter %r came back as %r" % (vals, res_prm), bucket="array:value")
@@ -821,7 +860,7 @@ def droplevel(case, ctx):
     want_names = [full_names[i] for i in keep_pos]
     got_names = list(res_prm.index.names)
     rows_p = _rows_of(res_prm.index)
-    if sorted(map(str, got_names)) != sorted(map(str, want_names)):
+    if sorted(map(repr, got_names)) != sorted(map(repr, want_names)):
         raise Violation("parameter result levels %r, expected the object result's levels %r without %r" % (got_names, full_names, drop),
                         bucket="drop:levels")
     if len(set(rows_p)) != len(rows_p):
@@ -847,8 +886,9 @@ def droplevel(case, ctx):
 # --------------------------------------------------------------------------- histories (stateful)
 @st.composite
 def _history_cases(draw, tier):
-    """A pool of 2-4 operands and a list of operations; each operation broadcasts pool[i] against pool[j] and appends
-    both results to the pool (they can be operands of later steps)."""
+    """A pool of 2-4 operands and a list of operations; an operation [i, j] broadcasts pool[i] against pool[j] (through ONE
+    Broadcaster instance per object, held for the whole history) and appends both results to the pool (they can be operands of
+    later steps); an operation ["set", i, row, col, value] overwrites one value of original object i in place."""
     npool = draw(st.integers(2, 3))
     objs = []
     op_o, op_p, _ = draw(layouts(tier, max_private=1))
@@ -864,8 +904,13 @@ def _history_cases(draw, tier):
     ops = []
     size = len(objs)
     for _ in range(nops):
-        if ops and draw(st.integers(0, 2)) == 0:
-            i, j = ops[-1][0], ops[-1][1]              # exact repetition of the previous broadcast
+        last = next((o for o in reversed(ops) if o[0] != "set"), None)
+        if ops and draw(st.integers(0, 3)) == 0:
+            # in-place update of one value of an original object; the held Broadcaster instances keep being used afterwards
+            ops.append(["set", draw(st.integers(0, len(objs) - 1)), draw(st.integers(0, 40)), draw(st.integers(0, 2)), 5000 + len(ops)])
+            continue
+        if last and draw(st.integers(0, 2)) == 0:
+            i, j = last[0], last[1]              # exact repetition of the previous broadcast
         else:
             i, j = draw(st.integers(0, size - 1)), draw(st.integers(0, size - 1))
         ops.append([i, j])
@@ -887,7 +932,23 @@ def repeat_history(case, ctx):
     snaps = [snapshot(x) for x in live]
     reused = False
     skipped = 0
-    for step, (i, j) in enumerate(case["ops"]):
+    held = {}
+    for step, op in enumerate(case["ops"]):
+        if op[0] == "set":
+            _, i, r, c, value = op
+            x, m = live[i], models[i]
+            r, c = r % len(m["rows"]), c % m["ncols"]
+            if isinstance(x, pd.Series):
+                x.iloc[r] = value
+            else:
+                x.iloc[r, c] = value
+            m["table"][m["rows"][r]][c] = float(value)
+            for k in range(len(live)):
+                if live[k] is x:
+                    snaps[k] = snapshot(x)
+            ctx.label("in_place_update")
+            continue
+        i, j = op
         a, b = live[i], live[j]
         ma, mb = models[i], models[j]
         if i >= len(case["objects"]) or j >= len(case["objects"]) or [i, j] in case["ops"][:step]:
@@ -915,7 +976,9 @@ def repeat_history(case, ctx):
             snaps += [snaps[i], snaps[j]]
             continue
         is_f05 = _f05_models(pseudo_o, pseudo_p)
-        res = _guarded(ctx, is_f05, lambda: Broadcaster(a).broadcast(b))
+        if id(a) not in held:
+            held[id(a)] = Broadcaster(a)
+        res = _guarded(ctx, is_f05, lambda: held[id(a)].broadcast(b))
         if res is None:
             return            # the exception left the operands recoded: the history cannot go on
         res_prm, res_obj = res
@@ -947,7 +1010,7 @@ def repeat_history(case, ctx):
             snaps.append(snapshot(res))
     if skipped:
         ctx.label("steps_skipped")
-    if len(case["ops"]) - skipped >= 2 and reused:
+    if len([o for o in case["ops"] if o[0] != "set"]) - skipped >= 2 and reused:
         ctx.nontrivial()
         ctx.label("reuse")
 
